@@ -222,6 +222,9 @@ func pathCond(c *schema.Ctx, body []ast.Stmt, target ast.Node) (string, bool) {
 				}
 				continue
 			}
+			if ast.Node(st) == target {
+				return true
+			}
 			switch s := st.(type) {
 			case *ast.IfStmt:
 				if contains(s.Body) {
